@@ -1,3 +1,4 @@
+import copy
 import pickle
 
 import numpy as np
@@ -59,12 +60,12 @@ class History:
         # Checks if the key is `agents`
         if key == 'agents':
             # Returns a list of agents' tuples (position, fit)
-            return [(v.position.tolist(), v.fit) for v in value]
+            return [(v.position.tolist(), copy.deepcopy(v.fit)) for v in value]
 
         # Checks if the key is `best_agent`
         elif key == 'best_agent':
             # Returns the best agent's tuple (position, fit)
-            return (value.position.tolist(), value.fit)
+            return (value.position.tolist(), copy.deepcopy(value.fit))
 
         # Checks if the key is `local`
         elif key == 'local':
